@@ -26,6 +26,7 @@ TREE=$ROOT/tree
 VSB=$ROOT/target/debug/vsb
 export GNUPGHOME=$ROOT/gnupg
 export TZ=UTC
+export PYTHONDONTWRITEBYTECODE=1
 
 EMU_PID=""
 CHECKS=0
@@ -159,8 +160,11 @@ pass "cargo build --offline with --cfg vsb_verif"
 echo "== local backups"
 mkdir -p "$ROOT/storage" "$ROOT/src/sub"
 mkdir -m 700 "$GNUPGHOME"
-# The first gpg run in a fresh home prints "keybox created"/"trustdb created" to stderr, which vsb
-# treats as a gpg error: warm the home up.
+# vsb treats any gpg stderr output as an error.  The first gpg run in a fresh home prints "keybox
+# created"/"trustdb created": warm the home up.  A gpg killed by vsb in the middle of a failed
+# upload can leave an empty random_seed file behind, which makes the next gpg print "note:
+# random_seed file is empty": disable the seed file.
+echo no-random-seed-file > "$GNUPGHOME/gpg.conf"
 gpg --batch --list-keys >/dev/null 2>&1
 echo warm-up | gpg --batch --passphrase-fd 3 --symmetric --compress-algo none 3<<<"$PASSPHRASE" 2>"$ROOT/gpg-warmup.err" >/dev/null
 [ -s "$ROOT/gpg-warmup.err" ] && { cat "$ROOT/gpg-warmup.err"; fail "gpg is silent in the prepared GNUPGHOME"; }
@@ -332,8 +336,8 @@ fault_run reset-before reset-before \
 fault_run reset-inside reset-inside \
     "[{\"fault\": \"reset-inside\", \"after_bytes\": 100000, \"repeat\": true, \"match\": {$M, \"endpoint\": \"upload-append\"}}]" \
     error
-check "fault reset-inside: the emulator read only a part (>0, <=100000 bytes) of the upload bodies and sent no response" test "$(log_query "$FAULT_STATE" \
-    "max(e['body_bytes'] for e in entries if e['fault']) > 0 and all(e['status'] is None and e['body_bytes'] <= 100000 for e in entries if e['fault'])")" = True
+check "fault reset-inside: the emulator read exactly 100000 bytes of the big body (all 3-4 KB of the small one) and sent no response" test "$(log_query "$FAULT_STATE" \
+    "sorted(e['body_bytes'] for e in entries if e['fault'])[1] == 100000 and 0 < min(e['body_bytes'] for e in entries if e['fault']) < 100000 and all(e['status'] is None for e in entries if e['fault'])")" = True
 fault_run corrupt corrupt \
     "[{\"fault\": \"corrupt\", \"repeat\": true, \"match\": {$M}}]" \
     error 'Checksum mismatch'
